@@ -1103,11 +1103,34 @@ def rule_W7(ctx):
                               "lbuf_edit is given %s" % key(a), f.loc(e))
         for r in cfg.return_nodes():
             e = r.get("e")
-            tn, tz = _eval(e, -1, res, -1), _eval(e, -1, res, 0)
-            if tn and tz == 0:
-                ctx.ok("lbuf_rd", "returns failure exactly on a read error", loc=f.loc(r))
+            # a return may sit under a test of the read result: judge it for the result
+            # values (error -1, end of file 0) under which it can be reached
+            bad = None
+            unknown = False
+            for v, want_fail in ((-1, True), (0, False)):
+                reach = True
+                for cc, t in _facts(f, r):
+                    if mentions(cc, res):
+                        tv = _eval(cc, rd["id"], res, v)
+                        if tv is None:
+                            unknown = True
+                        elif bool(tv) != t:
+                            reach = False
+                if not reach:
+                    continue
+                rv = _eval(e, -1, res, v)
+                if rv is None:
+                    unknown = True
+                elif bool(rv) != want_fail:
+                    bad = v
+            if bad is not None:
+                ctx.violation("lbuf_rd", "read error reported", "return %s when %s is %d" % (
+                    key(e), res, bad), f.loc(r))
+            elif unknown:
+                ctx.inconclusive("lbuf_rd", "read error reported",
+                                 "return %s not understood" % key(e), f.loc(r))
             else:
-                ctx.violation("lbuf_rd", "read error reported", "return %s" % key(e), f.loc(r))
+                ctx.ok("lbuf_rd", "returns failure exactly on a read error", loc=f.loc(r))
     # callers
     n = 0
     for g in prog.funcs.values():
